@@ -246,6 +246,69 @@ def run(ck, prog, ctx):
         else:
             ck.ob("COVER", "release-version", comps == {"0", "1", "2"} and tup == {"0", "1", "2"}, "writer serialises hpo_version components %s, reader restores components %s from the input" % (sorted(comps), sorted(tup)), where=hv.where())
 
+    # ... and in the ORDER the decoder expects: year (2 bytes, big endian), month, day
+    if mw is not None and hv is not None:
+        def comp_of(body, op):
+            cs = set()
+            for a in pvn.of_operand(body, op):
+                if a[0] == "param" and a[1] == body.id:
+                    fs = [e for e in a[3] if e[0] == "f"]
+                    if len(fs) >= 2 and fs[0][1] == "hpo_version":
+                        cs.add(fs[1][1])
+                    elif fs and "u16, u8, u8" in str(body.locals[a[2]].get("s", "")):
+                        cs.add(fs[0][1])
+            return cs
+        seq = []
+        okw = True
+        for bi in codec.dominance_order(mw, sorted({bi for bi, t in mw.calls() if t.callee.method in ("push", "extend_from_slice", "extend", "append", "push_str") and len(t.args) == 2})):
+            t = mw.blocks[bi].term
+            arg = t.args[1]
+            elems = None
+            if arg.place is not None:
+                # an array literal `&[month, day]` appends its elements in order
+                l = arg.place.local
+                seen_l = set()
+                while l is not None and l not in seen_l:
+                    seen_l.add(l)
+                    ds = pvn.defs(mw).get(l, [])
+                    nxt = None
+                    for kind, pos, d in ds:
+                        if kind == "assign" and d.rv["k"] == "agg" and d.rv.get("agg") == "array":
+                            elems = d.rv["ops"]
+                        elif kind == "assign" and d.rv["k"] == "ref":
+                            nxt = d.rv["place"].local
+                        elif kind == "assign" and d.rv["k"] in ("use", "cast") and d.rv["op"].place is not None:
+                            nxt = d.rv["op"].place.local
+                    l = nxt if elems is None else None
+            for o in (elems if elems is not None else [arg]):
+                cs = comp_of(mw, o)
+                if len(cs) == 1:
+                    c = next(iter(cs))
+                    if not seq or seq[-1] != c:
+                        seq.append(c)
+                elif len(cs) > 1:
+                    okw = False
+        rd = {}
+        for t in [t for _, t in hv.calls() if (t.callee.res or "").endswith("::set_hpo_version")]:
+            for i in ("0", "1", "2"):
+                idx = set()
+                for a in pv.of_operand(hv, t.args[1], (("f", i, "tuple"),)):
+                    if a[0] == "call" and a[1].endswith("::index") and a[3] == hv.id:
+                        it = hv.blocks[a[4]].term
+                        if len(it.args) == 2 and it.args[1].int_value() is not None:
+                            idx.add(it.args[1].int_value())
+                        elif len(it.args) == 2:
+                            for x in pvn.of_operand(hv, it.args[1]):
+                                if x[0] == "const" and re.match(r"^\d+_usize$", str(x[2])):
+                                    idx.add(int(str(x[2]).split("_")[0]))
+                if idx:
+                    rd[i] = idx
+        if not okw or len(seq) < 3 or len(rd) < 3:
+            ck.undecided("ORDER", "release-version/positions", "byte positions of the release version not recognised (writer order %s, reader indices %s)" % (seq, {k: sorted(v) for k, v in rd.items()}), where=mw.where())
+        else:
+            r_order = [k for k, v in sorted(rd.items(), key=lambda kv: min(kv[1]))]
+            ck.ob("ORDER", "release-version/positions", seq == r_order, "the encoder appends the release version as components %s, the decoder reads components %s from ascending byte positions %s%s" % (seq, r_order, [sorted(rd[k]) for k in r_order], "" if seq == r_order else ": the components come back exchanged"), where=mw.where())
+
     # ------------------------------------------------------------------ GUARD: narrowing casts
     W = {"u8": 8, "u16": 16, "u32": 32, "u64": 64, "usize": 64, "u128": 128, "i8": 8, "i16": 16, "i32": 32, "i64": 64, "isize": 64}
     ncast = 0
@@ -361,7 +424,7 @@ def run(ck, prog, ctx):
         ck.ob("TAINT", "truncate/%s/%d" % (owner, len([1 for x in sinks[:n] if x[0].id == b.id])), ok,
               "%s cuts the UTF-8 bytes of a str at %s" % (owner, "a validated char boundary" if ok else "a byte count that is not validated with is_char_boundary: a multi-byte character can be split and the loader rejects the bytes"),
               where=b.where(t.line))
-    ck.floor("TAINT", "str byte truncation sinks", len(sinks), 2)
+    ck.floor("TAINT", "str byte truncation sinks", len(sinks), 2, soft=bool(sinks))
 
     # ------------------------------------------------------------------ LAYOUT: decoded fields are independent of each other
     ck.rule("LAYOUT", "byte offsets of the record codecs as affine expressions of the decoded length fields; every optional store of a decoded field is guarded only by its own bytes (DESIGN 3.17)")
